@@ -14,7 +14,7 @@ CLAIMED = {
     "C03": ("property-based differential testing: generated litmus programs run under loom vs brute-force axiomatic RC11 enumeration (may-appear set U)",
             "Bounded generated-program exploration: every outcome loom produces for a generated program must be allowed by the weakest reading (SeqCst accesses as AcqRel, C++20 release sequences) of an independent RC11 enumerator. Sound by construction (never flags what C11/C++20/RC11 disagree on); complete only within the generated bounds.",
             "Trusts the R-AX enumerator; forbidden outcomes on programs in classes K7a/K7b are attributed to the recorded findings F7a/F7b only if they become allowed when the modification order of the K7 locations is left unconstrained.", "4/C03"),
-    "C01": ("property-based differential testing: generated programs over all loom primitives run under loom vs an exhaustive interleaving reference (R-SC); set inclusion SC subset-of L plus trace validation",
+    "C01": ("property-based differential testing: generated programs over all loom primitives run under loom vs an exhaustive interleaving reference (R-SC); set inclusion SC subset-of L plus trace validation; exploration controls: reference with frozen regions (Rfrozen subset-of L)",
             "Bounded generated-program exploration: for each generated program (<=4 threads, <=8 operations, ten families) every result some interleaving of the reference produces (values, deadlock, leak) must be produced by a loom iteration; for programs without atomics the sets must be equal and every iteration's op log must replay on the reference machines.",
             "Trusts R-SC (harness/src/refsc.rs). Programs inside the classes of recorded findings (F9 try-ops, F2/F2b channel emptiness, F5a-e park/unpark) are evaluated but a failure of the finding's kind is attributed to it.", "4/C01"),
     "C05": ("property-based differential testing: deadlock reachability in the R-SC interleaving reference vs loom's deadlock report",
@@ -59,7 +59,7 @@ CLAIMED = {
     "C18": ("property-based differential testing: await-loop programs under loom vs R-AX with constrained reads (bracket A subset L subset U) + branch-limit verdicts; do-while loops (unconditional yield) vs an interleaving reference with the documented yield semantics",
             "Bounded generated programs with one spinning thread (one or two yield_now / spin_loop loops on flags written once): completion without the branch limit, every exit outcome of the strongest reading explored, nothing outside the weakest reading; never-true loops must end in the documented branch-limit panic.",
             "Trusts R-AX; flags written once; outcomes that need SeqCst events ordered against po U rf are the recorded finding F12.", "4/C18"),
-    "C19": ("property-based testing: product / subset oracles for exploration controls, boundary-value generation for limits",
+    "C19": ("property-based testing: product / subset oracles and an interleaving reference with frozen regions (Rfrozen subset-of L subset-of R) for exploration controls, boundary-value generation for limits",
             "Phase programs with one or two frozen phases must yield exactly the product of the explored phases; arbitrary legal placements must yield a subset with valid executions; max_branches / max_threads panic exactly when the need exceeds the limit; max_permutations / max_duration stop between iterations within the documented boundary.",
             "Phases are independent by construction; max_duration only at its deterministic ends.", "4/C19"),
     "C20": ("property-based differential testing: generated block_on / AtomicWaker programs under loom vs an explicit-state interleaving reference (R-FUT)",
